@@ -1,7 +1,7 @@
 (* C19 - decoding errors name the offending field, in decimal, for every number. *)
 From Coq Require Import List ZArith Bool.
 From Pico Require Import Base.Res Base.Mach Wire.Wire Small.FieldNumStr Small.FieldNumStrProofs
-  Schema.Types Schema.Scalar Dec.Dec Dec.ReaderProofs.
+  Schema.Types Schema.Scalar Schema.Gen Schema.Interp Dec.Dec Dec.ReaderProofs Schema.ErrName.
 Import ListNotations.
 Open Scope Z_scope.
 
@@ -16,13 +16,43 @@ Theorem C19_err_wire : forall k field st v, field = pf st -> pw st <> wire_of k 
   err (fst (dec_single k field st v)) = Some (field, EWire).
 Proof. intros. rewrite dec_single_wrong_wire by assumption. reflexivity. Qed.
 
-(* PARTIAL: "unparsable value" errors and errors of the Repeated*/Message readers carry
-   the field number by construction of the model (every `fail field ...`); they are tied
-   to the code by comparing (field, class) of model and implementation on the malformed
-   stream. *)
+(* a typed reader that starts without error reports nothing but the number it was called for, and only when that number is
+   the pending one, i.e. the number in the tag of the offending record: wrong wire type or unparsable value alike *)
+Theorem C19_reader_names_itself : forall k field st v f c, err st = None ->
+  err (fst (dec_single k field st v)) = Some (f, c) -> field_class c -> f = field /\ pf st = f.
+Proof.
+  intros k field st v f c E0 E Hc. split; [exact (single_reader_names_itself k field st v f c E0 E Hc)|exact (single_reader_error_is_pending k field st v f c E0 E Hc)].
+Qed.
+Theorem C19_repeated_reader_names_itself : forall fuel k field st vs f c, err st = None ->
+  err (fst (dec_repeated fuel k field st vs)) = Some (f, c) -> field_class c -> f = field.
+Proof. exact repeated_reader_names_itself. Qed.
+
+(* whole messages: picobuf.Unmarshal with the Decode methods of ANY program list, on ANY input, into ANY starting message.
+   An error of class "expected wire type ..." / "unable to parse ..." carries a field number declared in the schema (at some
+   nesting level), or the sub-field 1/2 of a map entry / Timestamp / Duration, or - only if some message captures unrecognized
+   fields - the own number of an unknown field whose value cannot be parsed. Never an arbitrary number, never a stale one. *)
+Theorem C19_unmarshal_error_names_field : forall progs idx data m0 f c m,
+  pico_unmarshal progs idx data m0 = (Some (f, c), m) -> field_class c -> allowed progs f.
+Proof. exact unmarshal_error_names_field. Qed.
+
+(* PARTIAL: that the number is the one of the FIRST offending record of the input (not merely a declared one) is stated at
+   reader level above; for whole messages it is tied to the code by comparing (field, class) of model and implementation on
+   the malformed stream, and to protobuf-go's tokenizer by the reader grids. *)
 
 Example C19_nonvacuous : fn_string (-2147483647) = Ok [45;50;49;52;55;52;56;51;54;52;55] /\ fn_string 1000000 = Ok [49;48;48;48;48;48;48].
 Proof. split; vm_compute; reflexivity. Qed.
 
+(* message { int32 a = 3; fixed64 b = 12; }: field 3 arriving as fixed64, field 12 arriving truncated *)
+Definition c19_progs : list prog :=
+  [{| p_enc := []; p_dec := [DScalar KInt32 false false 0 3; DScalar KFixed64 false false 1 12]; p_zero := [VInt 0; VInt 0] |}].
+Example C19_unmarshal_nonvacuous :
+  fst (pico_unmarshal c19_progs 0 [25; 1; 2; 3; 4; 5; 6; 7; 8] ([VInt 0; VInt 0], [])) = Some (3, EWire) /\
+  fst (pico_unmarshal c19_progs 0 [24; 5; 97; 1; 2; 3] ([VInt 0; VInt 0], [])) = Some (12, EParse) /\
+  declared c19_progs = [3; 12] /\ captures c19_progs = false.
+Proof. repeat split; vm_compute; reflexivity. Qed.
+
 Print Assumptions C19_str.
 Print Assumptions C19_err_wire.
+Print Assumptions C19_reader_names_itself.
+Print Assumptions C19_repeated_reader_names_itself.
+Print Assumptions C19_unmarshal_error_names_field.
